@@ -1,0 +1,54 @@
+//go:build verif
+
+package innerring
+
+// Machine-checked contracts (govc, see /verif/DESIGN.md). Comment-only file.
+
+// ---- C35: an inner ring node acts with alphabet authority only after it has established
+// that it is an alphabet member. isAlpha() is established only by IsAlphabet() answering
+// true or AlphabetIndex() answering a non-negative index (per invocation); helper functions
+// that perform an effect without checking themselves `require isAlpha()` and are checked
+// at their call sites. The effect set A (transactions that need alphabet authority) is
+// matched by name over every function of pkg/innerring and its processors.
+
+//@ ghost pred isAlpha() bool
+//@ ghost pred irIndex() int
+
+//@ callrule alphabet_membership_facts in github.com/nspcc-dev/neofs-node/pkg/innerring*::*
+//@   property C35
+//@   callee *).IsAlphabet
+//@   defines result ==> isAlpha()
+//@ callrule alphabet_index_facts in github.com/nspcc-dev/neofs-node/pkg/innerring*::*
+//@   property C35
+//@   callee *).AlphabetIndex
+//@   except (*innerring.innerRingIndexer).AlphabetIndex
+//@   defines result >= 0 ==> isAlpha()
+//@ callrule inner_ring_index_facts in github.com/nspcc-dev/neofs-node/pkg/innerring*::*
+//@   property C35
+//@   callee (*innerring.Server).InnerRingIndex
+//@   defines irIndex() == result
+
+//@ callrule alphabet_authority in github.com/nspcc-dev/neofs-node/pkg/innerring*::*, !github.com/nspcc-dev/neofs-node/pkg/innerring::(*Server).voteForFSChainValidator
+//@   property C35
+//@   callee *).Invoke, *).NotaryInvoke, *).NotarySignAndInvokeTX, *).TransferGas, *).UpdateNeoFSAlphabetList, *).UpdateNotaryList, *).AlphabetUpdate, *).Cheque, *).Mint, *).Burn, (*balance.Client).Lock, *).NewEpoch, *).SetConfig
+//@   requires [alphabet_member] isAlpha()
+
+// voting: the node derives its alphabet membership from its inner ring index (the
+// alphabet is the prefix of the inner ring list): 0 <= index < number of alphabet contracts
+//@ callrule vote_only_in_alphabet_range in (*Server).voteForFSChainValidator
+//@   property C35
+//@   callee *).NotaryInvoke
+//@   requires [index_in_alphabet_range] 0 <= irIndex() && irIndex() < len(s.contracts.alphabet)
+
+//@ func (*Server).voteForFSChainValidator
+//@   property C35
+//@   opt immutable=contracts.alphabet,Server.contracts
+
+//@ func (*Server).IsAlphabet
+//@   property C35
+//@   ensures [is_alphabet_iff_index_nonnegative] result <==> alphabetIndexOf() >= 0
+//@ ghost pred alphabetIndexOf() int
+//@ callrule is_alphabet_index_fact in (*Server).IsAlphabet
+//@   property C35
+//@   callee (*innerring.Server).AlphabetIndex
+//@   defines alphabetIndexOf() == result
